@@ -106,8 +106,8 @@ def new_exec(prog, ctxs, lmax):
     ex = Exec(prog, models.dispatch)
     ex.ctxs = ctxs
     ex.lmax = lmax
-    import models_it, models_v2
-    ex.hooks = [models_it.hook, models_v2.hook]
+    import models_it, models_v2, models_more
+    ex.hooks = [models_more.hook, models_it.hook, models_v2.hook]
     return ex
 
 
@@ -216,7 +216,7 @@ def model_version():
     if MODEL_VERSION is None:
         h = hashlib.sha256()
         d = os.path.dirname(os.path.abspath(__file__))
-        for fn in ('core.py', 'models.py', 'mirparse.py', 'v1sum.py', 'models_it.py', 'models_v2.py'):
+        for fn in ('core.py', 'models.py', 'mirparse.py', 'v1sum.py', 'models_it.py', 'models_v2.py', 'models_more.py'):
             if True:
                 h.update(open(os.path.join(d, fn), 'rb').read())
         MODEL_VERSION = h.hexdigest()
